@@ -85,6 +85,12 @@ StepTail ==
      /\ EnabledTail(i)
      /\ Log([op |-> "tail", r |-> i, c |-> SparseW, ones |-> SetSeq(TailOnes(i))])
   /\ UNCHANGED mvars
+\* the dense back-end answers tail queries from any start column (no precondition in its implementation): asked of it alone
+StepTailDense ==
+  /\ \E i \in Pick(Rows), c \in Pick(Cols) :
+     /\ RangeDefined(i, c, v_w)
+     /\ Log([op |-> "taild", r |-> i, c |-> c, ones |-> SetSeq({x \in v_rows[i] : x >= c})])
+  /\ UNCHANGED mvars
 StepGet ==
   /\ \E i \in Pick(Rows), j \in Pick(Cols) : EnabledGet(i, j) /\ Log([op |-> "get", i |-> i, j |-> j, want |-> Get(i, j)])
   /\ UNCHANGED mvars
@@ -95,7 +101,7 @@ StepSetTail ==
 IndexedStep ==
   /\ v_phase = "indexed" /\ v_left > 0
   /\ \/ StepSwapRows \/ StepSwapCols \/ StepColumnQuery \/ StepAddSingle \/ StepAddSingle
-     \/ StepFreeze \/ StepFreeze \/ StepFreeze \/ StepRange \/ StepTail \/ StepGet \/ StepSetTail
+     \/ StepFreeze \/ StepFreeze \/ StepFreeze \/ StepRange \/ StepTail \/ StepGet \/ StepSetTail \/ StepTailDense
   /\ v_left' = v_left - 1 /\ UNCHANGED v_phase
 EndIndexed ==
   /\ v_phase = "indexed" /\ v_left = 0
@@ -117,7 +123,7 @@ StepAddFree ==
 StepSetAny == \E i \in Pick(Rows), j \in Pick(Cols), v \in Pick({0, 1}) : Set(i, j, v) /\ Log([op |-> "set", i |-> i, j |-> j, v |-> v])
 FreeStep ==
   /\ v_phase = "free" /\ v_left > 0
-  /\ \/ StepAddFree \/ StepAddFree \/ StepSetAny \/ StepGet \/ StepTail \/ StepSwapRows
+  /\ \/ StepAddFree \/ StepAddFree \/ StepSetAny \/ StepGet \/ StepTail \/ StepSwapRows \/ StepTailDense \/ StepTailDense
   /\ v_left' = v_left - 1 /\ UNCHANGED v_phase
 EndFree ==
   /\ v_phase = "free" /\ v_left = 0
